@@ -10,7 +10,7 @@
    2. Programs without pub/sub and streams: the composed model coincides with
       Sim/Model.v, so C02-C06 apply to it. *)
 From Coq Require Import ZArith List Bool Lia Arith.
-From PV Require Import EventList.Key Sim.Model Sim.Case Sim.Order Sim.Reinit Sim.Repro.
+From PV Require Import EventList.Key Sim.Model Sim.Case Sim.Order Sim.Horizon Sim.Reinit Sim.ReinitProofs Sim.Repro.
 From PV Require PubSub.Model PubSub.SubsProofs.
 Import ListNotations.
 Local Open Scope Z_scope.
@@ -210,3 +210,584 @@ Proof.
   induction (ym_subs M) as [|[et l] r IH]; intros m W; cbn [fold_left]; auto.
   apply IH. apply PSP.sub_add_wf. exact W.
 Qed.
+
+(* ------------------------------------------------------------------ *)
+(** * Event-id renaming and re-initialisation for the composed model *)
+
+(* The relation of Sim/ReinitProofs.v lifted to the composed state: the
+   simulator parts are related by [IdSim] (order-preserving renaming of the
+   comparable event ids, same things logged since two marks), producer,
+   streams and serial numbers are equal, the delivery and draw logs grew by the
+   same entries since the marks, the statistics objects correspond. *)
+Record ybase := mkYB {
+  yb_s : logs; yb_t : logs;
+  yb_ds : list dlv; yb_dt : list dlv;
+  yb_ws : list (nat * Z); yb_wt : list (nat * Z);
+  yb_N : nat
+}.
+
+Definition yb_L (B : ybase) : nat := (length (l_ob (yb_s B)) - length (l_ob (yb_t B)))%nat.
+
+Record YRest (B : ybase) (y t : ysim) : Prop := mkYRest {
+  yr_subm : y_subm t = y_subm y;
+  yr_str : y_str t = y_str y;
+  yr_ser : y_ser t = y_ser y;
+  yr_dlv : exists n, y_dlv y = n ++ yb_ds B /\ y_dlv t = n ++ yb_dt B;
+  yr_drw : exists n, y_drw y = n ++ yb_ws B /\ y_drw t = n ++ yb_wt B;
+  yr_mdl : MdlRel (yb_L B) (yb_N B) (y_mdl y) (y_mdl t)
+}.
+
+Definition YSim (B : ybase) (y t : ysim) : Prop :=
+  IdSim (yb_s B) (yb_t B) (y_sim y) (y_sim t) /\ YRest B y t.
+
+Section YPrims.
+Variable nint : Z -> Z -> Z -> Z.
+Variable B : ybase.
+Hypothesis B_le : (length (l_ob (yb_t B)) <= length (l_ob (yb_s B)))%nat.
+
+Lemma yrest_with_sim y t s s' : YRest B y t -> YRest B (with_sim y s) (with_sim t s').
+Proof. intros []. constructor; auto. Qed.
+
+Lemma ysim_with_sim y t s s' :
+  YRest B y t -> IdSim (yb_s B) (yb_t B) s s' -> YSim B (with_sim y s) (with_sim t s').
+Proof. intros R H. split; [exact H|apply yrest_with_sim; exact R]. Qed.
+
+Lemma yflag_ysim y t : YSim B y t -> YSim B (yflag y) (yflag t).
+Proof. intros [H R]. apply ysim_with_sim; auto. apply raise_flag_idsim; auto. Qed.
+
+Lemma draw_ysim st y t :
+  YSim B y t ->
+  match draw st y, draw st t with
+  | Some (k, y1), Some (k', t1) => k' = k /\ YSim B y1 t1 /\ y_sim y1 = y_sim y /\ y_sim t1 = y_sim t
+  | None, None => True
+  | _, _ => False
+  end.
+Proof.
+  intros [H R]. unfold draw. rewrite (yr_str _ _ _ R).
+  destruct (nth st (y_str y) []) as [|k r]; auto.
+  split; auto. split; [|split; reflexivity].
+  split; [exact H|]. destruct R as [R1 R2 R3 R4 [n [A A']] R6]. constructor; cbn; auto.
+  exists ((st, k) :: n). rewrite A, A'. auto.
+Qed.
+
+Lemma ystep_ysim md y t a :
+  YSim B y t ->
+  YSim B (fst (ystep nint md y a)) (fst (ystep nint md t a))
+  /\ snd (ystep nint md t a) = snd (ystep nint md y a).
+Proof.
+  intros Y. destruct a as [b|st lo hi mult prio h|sid st lo hi|sid st|et|et l|et l]; cbn [ystep].
+  - destruct Y as [H R]. destruct (exec_action_idsim _ _ md _ _ b H) as [H1 E1].
+    destruct (exec_action md (y_sim y) b) as [s1 f1], (exec_action md (y_sim t) b) as [t1 f2].
+    cbn [fst snd] in *. split; auto. apply ysim_with_sim; auto.
+  - pose proof (draw_ysim st y t Y) as D.
+    destruct (draw st y) as [[k y1]|], (draw st t) as [[k' t1]|]; try contradiction.
+    + destruct D as (-> & [H1 R1] & _ & _). cbn [fst snd]. split; auto.
+      apply ysim_with_sim; auto. apply do_sched_idsim; auto.
+    + cbn [fst snd]. split; auto. apply yflag_ysim; auto.
+  - pose proof (draw_ysim st y t Y) as D.
+    destruct (draw st y) as [[k y1]|], (draw st t) as [[k' t1]|]; try contradiction.
+    + destruct D as (-> & [H1 R1] & _ & _). cbn [fst snd]. split; auto.
+      apply ysim_with_sim; auto. rewrite (idsim_clock _ _ _ _ H1). apply set_obs_idsim; auto.
+    + cbn [fst snd]. split; auto. apply yflag_ysim; auto.
+  - pose proof (draw_ysim st y t Y) as D.
+    destruct (draw st y) as [[k y1]|], (draw st t) as [[k' t1]|]; try contradiction.
+    + destruct D as (-> & [H1 R1] & _ & _). cbn [fst snd]. split; auto.
+      apply ysim_with_sim; auto. rewrite (idsim_clock _ _ _ _ H1). apply set_obs_idsim; auto.
+    + cbn [fst snd]. split; auto. apply yflag_ysim; auto.
+  - split; auto.
+  - cbn [fst snd]. split; auto. destruct Y as [H R]. split; [exact H|].
+    destruct R. constructor; cbn; auto. rewrite yr_subm0. reflexivity.
+  - cbn [fst snd]. split; auto. destruct Y as [H R]. split; [exact H|].
+    destruct R. constructor; cbn; auto. rewrite yr_subm0. reflexivity.
+Qed.
+
+Lemma log_dlv_ysim et l ser y t : YSim B y t -> YSim B (log_dlv et l ser y) (log_dlv et l ser t).
+Proof.
+  intros [H R]. split; [exact H|]. destruct R as [R1 R2 R3 [n [A A']] R5 R6]. constructor; cbn; auto.
+  exists (mkDlv et l ser (clock (y_sim y)) :: n). rewrite (idsim_clock _ _ _ _ H), A, A'. auto.
+Qed.
+
+Lemma bump_ser_ysim y t : YSim B y t -> YSim B (bump_ser y) (bump_ser t).
+Proof.
+  intros [H R]. split; [exact H|]. destruct R. constructor; cbn; auto.
+Qed.
+
+Lemma ymachine_ysim M fuel md : forall y t stack,
+  YSim B y t ->
+  YSim B (fst (ymachine nint M fuel md y stack)) (fst (ymachine nint M fuel md t stack))
+  /\ snd (ymachine nint M fuel md t stack) = snd (ymachine nint M fuel md y stack).
+Proof.
+  induction fuel as [|f IH]; intros y t stack Y; cbn [ymachine].
+  - destruct stack; cbn [fst snd]; split; auto using yflag_ysim.
+  - destruct stack as [|[a|et l s] r]; [split; auto| |].
+    + destruct a as [b|st lo hi mult prio h|sid st lo hi|sid st|et|et l|et l];
+      try (match goal with |- context [ystep nint md y ?a] =>
+             destruct (ystep_ysim md y t a Y) as [Y1 E1];
+             destruct (ystep nint md y a) as [y1 f1], (ystep nint md t a) as [t1 f2];
+             cbn [fst snd] in *; subst f2; destruct f1; [split; auto|apply IH; auto] end; fail).
+      unfold fire_items. destruct Y as [H R]. rewrite (yr_subm _ _ _ R), (yr_ser _ _ _ R).
+      apply IH. apply bump_ser_ysim. split; auto.
+    + apply IH. apply log_dlv_ysim; auto.
+Qed.
+
+Lemma yexec_event_ysim M hf md y t e f :
+  CoreSim f (y_sim y) (y_sim t) -> LogsRel (yb_s B) (yb_t B) (y_sim y) (y_sim t) -> YRest B y t ->
+  YSim B (fst (yexec_event nint M hf md y e)) (fst (yexec_event nint M hf md t (ren f e)))
+  /\ snd (yexec_event nint M hf md t (ren f e)) = snd (yexec_event nint M hf md y e).
+Proof.
+  intros C L R. unfold yexec_event. cbn [ev_h ren].
+  pose proof (set_trace_idsim _ _ (y_sim y) (y_sim t) e f C L (or_intror I)) as H.
+  destruct (ev_h e).
+  - cbn [fst snd]. split; auto. apply ysim_with_sim; auto.
+    set (s1 := set_trace ((e, clock (y_sim y)) :: trace (y_sim y)) (y_sim y)) in *.
+    set (t1 := set_trace ((ren f e, clock (y_sim t)) :: trace (y_sim t)) (y_sim t)) in *.
+    rewrite (idsim_clock _ _ _ _ H).
+    assert (H1 : IdSim (yb_s B) (yb_t B) (emit (NWarmup (clock s1)) s1) (emit (NWarmup (clock s1)) t1))
+      by (apply emit_idsim; auto).
+    exact (set_obs_idsim _ _ _ _ (ObsWarm (clock s1)) H1).
+  - unfold yexec. apply ymachine_ysim. apply ysim_with_sim; auto.
+Qed.
+
+Lemma ytake_event_ysim M hf y t e r f :
+  CoreSim f (y_sim y) (y_sim t) -> LogsRel (yb_s B) (yb_t B) (y_sim y) (y_sim t) -> YRest B y t ->
+  pend (y_sim y) = e :: r ->
+  YSim B (ytake_event nint M hf y e r) (ytake_event nint M hf t (ren f e) (map (ren f) r)).
+Proof.
+  intros C L R E. destruct (pop_coresim f _ _ e r C E) as [_ C0].
+  unfold ytake_event. cbn [ev_time ren].
+  set (s0 := set_pend r (y_sim y)). set (t0 := set_pend (map (ren f) r) (y_sim t)).
+  assert (L0 : LogsRel (yb_s B) (yb_t B) s0 t0) by (eapply LogsRel_same; eauto).
+  replace (clock t0) with (clock s0) by (symmetry; apply (cs_clock _ _ _ C0)).
+  set (s1 := if ev_time e =? clock s0 then s0 else emit (NTime (ev_time e)) s0).
+  set (t1 := if ev_time e =? clock s0 then t0 else emit (NTime (ev_time e)) t0).
+  assert (C2 : CoreSim f (set_clock (ev_time e) s1) (set_clock (ev_time e) t1)).
+  { unfold s1, t1. destruct (ev_time e =? clock s0); destruct C0; constructor; auto. }
+  assert (L2 : LogsRel (yb_s B) (yb_t B) (set_clock (ev_time e) s1) (set_clock (ev_time e) t1)).
+  { unfold s1, t1. destruct (ev_time e =? clock s0).
+    - eapply LogsRel_same; eauto.
+    - eapply (LogsRel_push _ _ _ _ _ _ (LNt (NTime (ev_time e)))); eauto. }
+  assert (R2 : YRest B (with_sim y (set_clock (ev_time e) s1)) (with_sim t (set_clock (ev_time e) t1)))
+    by (apply yrest_with_sim; auto).
+  destruct (yexec_event_ysim M hf InRun (with_sim y (set_clock (ev_time e) s1)) (with_sim t (set_clock (ev_time e) t1)) e f C2 L2 R2) as [Y3 E3].
+  destruct (yexec_event nint M hf InRun (with_sim y (set_clock (ev_time e) s1)) e) as [y3 fl].
+  destruct (yexec_event nint M hf InRun (with_sim t (set_clock (ev_time e) t1)) (ren f e)) as [t3 fl'].
+  cbn [fst snd] in *. subst fl'. destruct Y3 as [H3 R3].
+  rewrite (idsim_strat _ _ _ _ H3).
+  destruct fl, (strat (y_sim y3)); try (split; auto; fail).
+  apply ysim_with_sim; auto. apply set_rs_idsim; auto.
+Qed.
+
+
+(* the run bound is not touched by handler / listener code *)
+Definition same_bi (s s' : sim) : Prop := bound s' = bound s /\ incl s' = incl s.
+
+Lemma same_bi_refl s : same_bi s s.
+Proof. split; reflexivity. Qed.
+
+Lemma same_bi_trans a b c : same_bi a b -> same_bi b c -> same_bi a c.
+Proof. intros [A1 A2] [B1 B2]. split; congruence. Qed.
+
+Lemma ystep_bi md y a : same_bi (y_sim y) (y_sim (fst (ystep nint md y a))).
+Proof.
+  destruct a as [b|st lo hi mult prio h|sid st lo hi|sid st|et|et l|et l]; cbn [ystep]; try (split; reflexivity).
+  - pose proof (exec_action_hstep md (y_sim y) b) as [F _ _ _ _].
+    destruct (exec_action md (y_sim y) b) as [s1 f1]. cbn [fst y_sim with_sim] in *.
+    split; [apply (fr_bound _ _ F)|apply (fr_incl _ _ F)].
+  - unfold draw. destruct (nth st (y_str y) []) as [|z zr]; cbn [fst y_sim with_sim yflag]; [split; reflexivity|].
+    pose proof (do_sched_frame (y_sim y) (MRel (TNum (mult * nint lo hi z))) prio h) as F.
+    split; [apply (fr_bound _ _ F)|apply (fr_incl _ _ F)].
+  - unfold draw. destruct (nth st (y_str y) []); cbn [fst y_sim with_sim yflag]; split; reflexivity.
+  - unfold draw. destruct (nth st (y_str y) []); cbn [fst y_sim with_sim yflag]; split; reflexivity.
+Qed.
+
+Lemma ymachine_bi M fuel md : forall y stack, same_bi (y_sim y) (y_sim (fst (ymachine nint M fuel md y stack))).
+Proof.
+  induction fuel as [|f IH]; intros y stack; cbn [ymachine].
+  - destruct stack; split; reflexivity.
+  - destruct stack as [|[a|et l s] r]; [split; reflexivity| |].
+    + destruct a as [b|st lo hi mult prio h|sid st lo hi|sid st|et|et l|et l];
+      try (match goal with |- context [ystep nint md y ?a] =>
+             pose proof (ystep_bi md y a) as Q; destruct (ystep nint md y a) as [y1 f1]; cbn [fst] in *;
+             destruct f1; [exact Q|eapply same_bi_trans; [exact Q|apply IH]] end; fail).
+      apply (same_bi_trans _ (y_sim (bump_ser y))); [split; reflexivity|apply IH].
+    + apply (same_bi_trans _ (y_sim (log_dlv et l s y))); [split; reflexivity|apply IH].
+Qed.
+
+Lemma yexec_event_bi M hf md y e : same_bi (y_sim y) (y_sim (fst (yexec_event nint M hf md y e))).
+Proof.
+  unfold yexec_event. destruct (ev_h e); cbn [fst y_sim with_sim]; [split; reflexivity|].
+  unfold yexec.
+  eapply same_bi_trans; [|apply ymachine_bi]. split; reflexivity.
+Qed.
+
+Lemma ytake_event_bi M hf y e r : same_bi (y_sim y) (y_sim (ytake_event nint M hf y e r)).
+Proof.
+  unfold ytake_event.
+  match goal with |- context [yexec_event nint M hf InRun ?y2 e] =>
+    pose proof (yexec_event_bi M hf InRun y2 e) as Q;
+    assert (Q0 : same_bi (y_sim y) (y_sim y2))
+      by (cbn [y_sim with_sim]; destruct (ev_time e =? clock (set_pend r (y_sim y))); split; reflexivity);
+    destruct (yexec_event nint M hf InRun y2 e) as [y3 fl]
+  end.
+  cbn [fst] in Q.
+  assert (Q1 : same_bi (y_sim y) (y_sim y3)) by (eapply same_bi_trans; [exact Q0|exact Q]).
+  destruct fl, (strat (y_sim y3)); auto.
+Qed.
+
+Lemma yrun_loop_ysim M fuel hf : forall y t,
+  YSim B y t -> SameBound (y_sim y) (y_sim t) ->
+  YSim B (yrun_loop nint M fuel hf y) (yrun_loop nint M fuel hf t).
+Proof.
+  induction fuel as [|n IH]; intros y t [H R] SB; cbn [yrun_loop]; rewrite (idsim_running _ _ _ _ H).
+  - destruct (running (y_sim y)); [apply yflag_ysim|]; split; auto.
+  - destruct (running (y_sim y)); [|split; auto].
+    destruct H as [[f C] L].
+    destruct (pend (y_sim y)) as [|e r] eqn:E.
+    + rewrite (cs_pend _ _ _ C), E. cbn [map]. apply ysim_with_sim; auto.
+      apply stop_at_bound_idsim; auto. split; eauto.
+    + destruct (pop_coresim f _ _ e r C E) as [Et _]. rewrite Et.
+      assert (Bq : beyond (y_sim t) (ren f e) = beyond (y_sim y) e).
+      { unfold beyond. destruct SB as [-> ->]. reflexivity. }
+      rewrite Bq. destruct (beyond (y_sim y) e).
+      * apply ysim_with_sim; auto. apply stop_at_bound_idsim; auto. split; eauto.
+      * apply IH.
+        -- apply ytake_event_ysim; auto.
+        -- destruct (ytake_event_bi M hf y e r) as [A1 A2].
+           destruct (ytake_event_bi M hf t (ren f e) (map (ren f) r)) as [B1 B2].
+           destruct SB. unfold SameBound; split; congruence.
+Qed.
+
+Lemma yworker_run_ysim M fuel hf y t :
+  YSim B y t -> SameBound (y_sim y) (y_sim t) ->
+  YSim B (yworker_run nint M fuel hf y) (yworker_run nint M fuel hf t).
+Proof.
+  intros [H R] SB. unfold yworker_run. rewrite (idsim_worker _ _ _ _ H).
+  destruct (worker (y_sim y)); try (split; auto; fail).
+  rewrite (idsim_ps _ _ _ _ H).
+  assert (G : forall y1 t1, YSim B y1 t1 -> YSim B (with_sim y1 (worker_ending (y_sim y1))) (with_sim t1 (worker_ending (y_sim t1)))).
+  { intros y1 t1 [H1 R1]. apply ysim_with_sim; auto. apply worker_ending_idsim; auto. }
+  destruct (ps (y_sim y)); try (apply G; split; auto; fail);
+  apply G; rewrite (idsim_clock _ _ _ _ H);
+  (assert (Ya : YSim B (with_sim y (set_rs RStarted (emit (NStart (clock (y_sim y))) (y_sim y))))
+                       (with_sim t (set_rs RStarted (emit (NStart (clock (y_sim y))) (y_sim t)))))
+     by (apply ysim_with_sim; auto; apply set_rs_idsim, emit_idsim; auto));
+  (assert (Sa : SameBound (y_sim (with_sim y (set_rs RStarted (emit (NStart (clock (y_sim y))) (y_sim y)))))
+                          (y_sim (with_sim t (set_rs RStarted (emit (NStart (clock (y_sim y))) (y_sim t))))))
+     by exact SB);
+  destruct (yrun_loop_ysim M fuel hf _ _ Ya Sa) as [Hb Rb];
+  apply ysim_with_sim; auto; rewrite (idsim_clock _ _ _ _ Hb); apply set_rs_idsim, emit_idsim; auto.
+Qed.
+
+Lemma ydo_start_ysim M fuel hf y t b i :
+  YSim B y t ->
+  YSim B (fst (ydo_start nint M fuel hf y b i)) (fst (ydo_start nint M fuel hf t b i))
+  /\ snd (ydo_start nint M fuel hf t b i) = snd (ydo_start nint M fuel hf y b i).
+Proof.
+  intros [H R]. unfold ydo_start. rewrite (start_checks_idsim _ _ _ _ H).
+  destruct (start_checks (y_sim y)); [|split; auto; split; auto].
+  destruct b as [bz|]; [|split; auto; split; auto].
+  rewrite (idsim_clock _ _ _ _ H). destruct (bz <? clock (y_sim y)); [split; auto; split; auto|].
+  rewrite (idsim_end_time _ _ _ _ H).
+  destruct (if bz >? end_time (y_sim y) then (end_time (y_sim y), true) else (bz, i)) as [bz' i'].
+  cbn [fst snd]. split; auto.
+  set (s1 := set_rs RStarting (set_incl i' (set_bound bz' (y_sim y)))).
+  set (t1 := set_rs RStarting (set_incl i' (set_bound bz' (y_sim t)))).
+  assert (H1 : IdSim (yb_s B) (yb_t B) s1 t1)
+    by (unfold s1, t1; apply set_rs_idsim, set_incl_idsim, set_bound_idsim; auto).
+  assert (S1 : SameBound s1 t1) by (split; reflexivity).
+  rewrite (idsim_ps _ _ _ _ H1), (idsim_clock _ _ _ _ H1).
+  apply yworker_run_ysim.
+  - apply ysim_with_sim; auto. apply emit_idsim. destruct (ps s1); auto using set_ps_idsim, emit_idsim.
+  - cbn [y_sim with_sim]. destruct (ps s1); exact S1.
+Qed.
+
+Lemma ystep_event_ysim M hf y t e r f :
+  CoreSim f (y_sim y) (y_sim t) -> LogsRel (yb_s B) (yb_t B) (y_sim y) (y_sim t) -> YRest B y t ->
+  pend (y_sim y) = e :: r ->
+  YSim B (ystep_event nint M hf y e r) (ystep_event nint M hf t (ren f e) (map (ren f) r)).
+Proof.
+  intros C L R E. destruct (pop_coresim f _ _ e r C E) as [_ C0].
+  unfold ystep_event. cbn [ev_time ren].
+  set (s0 := set_pend r (y_sim y)). set (t0 := set_pend (map (ren f) r) (y_sim t)).
+  assert (L0 : LogsRel (yb_s B) (yb_t B) s0 t0) by (eapply LogsRel_same; eauto).
+  assert (C1 : CoreSim f (set_clock (ev_time e) (emit (NTime (ev_time e)) s0))
+                         (set_clock (ev_time e) (emit (NTime (ev_time e)) t0))).
+  { destruct C0. constructor; auto. }
+  assert (L1 : LogsRel (yb_s B) (yb_t B) (set_clock (ev_time e) (emit (NTime (ev_time e)) s0))
+                             (set_clock (ev_time e) (emit (NTime (ev_time e)) t0))).
+  { eapply (LogsRel_push _ _ _ _ _ _ (LNt (NTime (ev_time e)))); eauto. }
+  assert (R1 : YRest B (with_sim y (set_clock (ev_time e) (emit (NTime (ev_time e)) s0)))
+                       (with_sim t (set_clock (ev_time e) (emit (NTime (ev_time e)) t0))))
+    by (apply yrest_with_sim; auto).
+  apply (yexec_event_ysim M hf InStep (with_sim y (set_clock (ev_time e) (emit (NTime (ev_time e)) s0)))
+           (with_sim t (set_clock (ev_time e) (emit (NTime (ev_time e)) t0))) e f C1 L1 R1).
+Qed.
+
+Lemma ydo_step_ysim M hf y t :
+  YSim B y t ->
+  YSim B (fst (ydo_step nint M hf y)) (fst (ydo_step nint M hf t))
+  /\ snd (ydo_step nint M hf t) = snd (ydo_step nint M hf y).
+Proof.
+  intros [H R]. unfold ydo_step. rewrite (step_checks_idsim _ _ _ _ H).
+  destruct (step_checks (y_sim y)); [|split; auto; split; auto]. cbn [fst snd]. split; auto.
+  rewrite (idsim_ps _ _ _ _ H), (idsim_clock _ _ _ _ H).
+  set (s1 := match ps (y_sim y) with PInit => set_ps PStarted (emit (NStartRepl (clock (y_sim y))) (y_sim y)) | _ => y_sim y end).
+  set (t1 := match ps (y_sim y) with PInit => set_ps PStarted (emit (NStartRepl (clock (y_sim y))) (y_sim t)) | _ => y_sim t end).
+  assert (H1 : IdSim (yb_s B) (yb_t B) s1 t1)
+    by (unfold s1, t1; destruct (ps (y_sim y)); auto using set_ps_idsim, emit_idsim).
+  rewrite (idsim_clock _ _ _ _ H1).
+  set (s2 := emit (NStart (clock s1)) (set_rs RStarted s1)).
+  set (t2 := emit (NStart (clock s1)) (set_rs RStarted t1)).
+  assert (H2 : IdSim (yb_s B) (yb_t B) s2 t2) by (unfold s2, t2; apply emit_idsim, set_rs_idsim; auto).
+  assert (Y3 : YSim B
+      (match pend s2 with [] => with_sim y s2 | e :: r => if ev_time e >? end_time s2 then with_sim y s2 else ystep_event nint M hf (with_sim y s2) e r end)
+      (match pend t2 with [] => with_sim t t2 | e :: r => if ev_time e >? end_time t2 then with_sim t t2 else ystep_event nint M hf (with_sim t t2) e r end)).
+  { destruct H2 as [[f C] L]. destruct (pend s2) as [|e r] eqn:E.
+    - rewrite (cs_pend _ _ _ C), E. cbn [map]. apply ysim_with_sim; auto. split; eauto.
+    - destruct (pop_coresim f s2 t2 e r C E) as [Et _]. rewrite Et.
+      assert (EE : end_time t2 = end_time s2) by (unfold end_time; rewrite (cs_rep _ _ _ C); reflexivity).
+      rewrite EE. cbn [ev_time ren]. destruct (ev_time e >? end_time s2); [apply ysim_with_sim; auto; split; eauto|].
+      apply (ystep_event_ysim M hf (with_sim y s2) (with_sim t t2) e r f); auto.
+      apply yrest_with_sim; auto. }
+  destruct Y3 as [H3 R3]. apply ysim_with_sim; auto.
+  rewrite (idsim_clock _ _ _ _ H3). apply set_rs_idsim, emit_idsim; auto.
+Qed.
+
+Lemma ydo_end_repl_ysim M fuel hf y t :
+  YSim B y t ->
+  YSim B (fst (ydo_end_repl nint M fuel hf y)) (fst (ydo_end_repl nint M fuel hf t))
+  /\ snd (ydo_end_repl nint M fuel hf t) = snd (ydo_end_repl nint M fuel hf y).
+Proof.
+  intros [H R]. unfold ydo_end_repl. rewrite (idsim_ps _ _ _ _ H).
+  destruct (ps (y_sim y)); cbn [fst snd]; split; auto; try (split; auto; fail).
+  rewrite (idsim_clock _ _ _ _ H), (idsim_end_time _ _ _ _ H).
+  set (s1 := if clock (y_sim y) <? end_time (y_sim y) then set_clock (end_time (y_sim y)) (y_sim y) else y_sim y).
+  set (t1 := if clock (y_sim y) <? end_time (y_sim y) then set_clock (end_time (y_sim y)) (y_sim t) else y_sim t).
+  assert (H1 : IdSim (yb_s B) (yb_t B) s1 t1)
+    by (unfold s1, t1; destruct (clock (y_sim y) <? end_time (y_sim y)); auto using set_clock_idsim).
+  set (s2 := set_pend [] (set_ps PEnding s1)). set (t2 := set_pend [] (set_ps PEnding t1)).
+  assert (H2 : IdSim (yb_s B) (yb_t B) s2 t2) by (unfold s2, t2; apply clear_idsim, set_ps_idsim; auto).
+  unfold yworker_run. cbn [y_sim with_sim]. rewrite (idsim_worker _ _ _ _ H2). destruct (worker s2); try (apply ysim_with_sim; auto; fail).
+  replace (ps s2) with PEnding by reflexivity. replace (ps t2) with PEnding by reflexivity. cbv iota.
+  apply ysim_with_sim; [apply yrest_with_sim; auto|]. cbn [y_sim with_sim]. apply worker_ending_idsim. exact H2.
+Qed.
+
+End YPrims.
+
+(* ------------------------------------------------------------------ *)
+(** * initialize of the composed model *)
+
+Section YInit.
+Variable nint : Z -> Z -> Z -> Z.
+Variable M : ymodel.
+
+Definition rsps (a : replst) (b : runst) (y : ysim) : ysim := with_sim y (set_ps a (set_rs b (y_sim y))).
+
+Lemma rsps_rsps a b c d y : rsps a b (rsps c d y) = rsps a b y.
+Proof. unfold rsps. cbn [y_sim with_sim y_subm y_str y_ser y_dlv y_drw y_mdl]. rewrite set_rsps_collapse. reflexivity. Qed.
+
+(* code run from construct_model does not look at the run / replication state *)
+Lemma ystep_construct_rsps a b y act :
+  ystep nint InConstruct (rsps a b y) act
+  = (rsps a b (fst (ystep nint InConstruct y act)), snd (ystep nint InConstruct y act)).
+Proof.
+  destruct act as [x|st lo hi mult prio h|sid st lo hi|sid st|et|et l|et l]; cbn [ystep]; try reflexivity.
+  - unfold rsps at 1. cbn [y_sim with_sim]. rewrite exec_action_construct_rsps.
+    destruct (exec_action InConstruct (y_sim y) x) as [s1 f1]. reflexivity.
+  - unfold draw, rsps. cbn [y_str with_sim y_sim]. destruct (nth st (y_str y) []) as [|k r]; [reflexivity|].
+    cbn [fst snd y_sim with_sim].
+    pose proof (exec_action_construct_rsps a b (y_sim y) (ASched (MRel (TNum (mult * nint lo hi k))) prio h)) as Q.
+    cbn [exec_action fst snd] in Q. inversion Q as [Q1]. rewrite Q1. reflexivity.
+  - unfold draw, rsps. cbn [y_str with_sim y_sim]. destruct (nth st (y_str y) []) as [|k r]; reflexivity.
+  - unfold draw, rsps. cbn [y_str with_sim y_sim]. destruct (nth st (y_str y) []) as [|k r]; reflexivity.
+Qed.
+
+Lemma ymachine_construct_rsps a b fuel : forall y stack,
+  ymachine nint M fuel InConstruct (rsps a b y) stack
+  = (rsps a b (fst (ymachine nint M fuel InConstruct y stack)), snd (ymachine nint M fuel InConstruct y stack)).
+Proof.
+  induction fuel as [|f IH]; intros y stack; cbn [ymachine].
+  - destruct stack; reflexivity.
+  - destruct stack as [|[x|et l s] r]; [reflexivity| |].
+    + destruct x as [x|st lo hi mult prio h|sid st lo hi|sid st|et|et l|et l];
+      try (match goal with |- context [ystep nint InConstruct (rsps a b y) ?act] =>
+             rewrite (ystep_construct_rsps a b y act);
+             destruct (ystep nint InConstruct y act) as [y1 f1]; cbn [fst snd];
+             destruct f1; [reflexivity|apply IH] end; fail).
+      replace (fire_items et (rsps a b y)) with (fire_items et y) by reflexivity.
+      replace (bump_ser (rsps a b y)) with (rsps a b (bump_ser y)) by reflexivity.
+      apply IH.
+    + replace (log_dlv et l s (rsps a b y)) with (rsps a b (log_dlv et l s y)) by reflexivity.
+      apply IH.
+Qed.
+
+(* the part of initialize after the decision to accept it and after the statistics were rebuilt *)
+Definition yinit_body (hf : nat) (y : ysim) (r : repl) (m1 : mdl) : ysim :=
+  let s := y_sim y in
+  let s0 := set_pend [] s in
+  let s1 := match worker s0 with WNone => s0 | _ => do_cleanup s0 end in
+  let s2 := set_created [] (set_clock (r_start r) (set_rep (Some r) (set_worker WAlive s1))) in
+  let ya := mkY s2 (initial_subs M) (ym_streams M) 0 (y_dlv y) (y_drw y) m1 in
+  let '(y3, failed) := yexec nint M hf InConstruct ya (hbody M 0) in
+  let y4 := if failed then yflag y3 else y3 in
+  let s5 := set_ps PInit (set_rs RInit (y_sim y4)) in
+  let s6 := if r_warm r <? clock s5 then raise_flag s5
+            else let e := mkEv (r_warm r) 10 (nid s5) HWarm 0 in
+                 set_nid (nid s5 + 1) (set_pend (ins e (pend s5)) s5) in
+  with_sim y4 s6.
+
+Lemma ydo_init_eq hf y r :
+  ydo_init nint M hf y r =
+  if running (y_sim y) then (y, ResRefused, false)
+  else
+    let n := length (obs (y_sim y)) in
+    let m0 := mkMdl [] (map (cut_obj n) (m_objs (y_mdl y))) in
+    if snd (build_stats n (ym_stats M) m0)
+    then (yinit_body hf y r (fst (build_stats n (ym_stats M) m0)), ResOk, false)
+    else (mkY (y_sim y) (y_subm y) (y_str y) (y_ser y) (y_dlv y) (y_drw y) (fst (build_stats n (ym_stats M) m0)),
+          ResRefused, true).
+Proof.
+  unfold ydo_init, yinit_body. destruct (running (y_sim y)); auto. cbv zeta.
+  destruct (build_stats _ (ym_stats M) _) as [m1 ok]. cbn [fst snd]. destruct ok; cbn [negb]; auto.
+  destruct (yexec nint M hf InConstruct _ (hbody M 0)) as [y3 failed]. reflexivity.
+Qed.
+
+Lemma yinit_body_rsps hf a b y r m1 : yinit_body hf (rsps a b y) r m1 = yinit_body hf y r m1.
+Proof.
+  unfold yinit_body. cbv zeta.
+  replace (y_dlv (rsps a b y)) with (y_dlv y) by reflexivity.
+  replace (y_drw (rsps a b y)) with (y_drw y) by reflexivity.
+  replace (worker (set_pend [] (y_sim (rsps a b y)))) with (worker (y_sim y)) by reflexivity.
+  replace (worker (set_pend [] (y_sim y))) with (worker (y_sim y)) by reflexivity.
+  destruct (worker (y_sim y)) eqn:W.
+  - set (s2 := set_created [] (set_clock (r_start r) (set_rep (Some r) (set_worker WAlive (set_pend [] (y_sim y)))))).
+    set (ya := mkY s2 (initial_subs M) (ym_streams M) 0 (y_dlv y) (y_drw y) m1).
+    replace (mkY (set_created [] (set_clock (r_start r) (set_rep (Some r) (set_worker WAlive
+               (set_pend [] (y_sim (rsps a b y))))))) (initial_subs M) (ym_streams M) 0 (y_dlv y) (y_drw y) m1)
+      with (rsps a b ya) by (unfold rsps, ya, s2; cbn [y_sim with_sim]; destruct (y_sim y); reflexivity).
+    unfold yexec. rewrite ymachine_construct_rsps.
+    destruct (ymachine nint M hf InConstruct ya (map IAct (hbody M 0))) as [y3 fl]. cbn [fst snd].
+    destruct fl.
+    + replace (yflag (rsps a b y3)) with (rsps a b (yflag y3)) by (unfold yflag, rsps; cbn; destruct (y_sim y3); reflexivity).
+      unfold rsps at 1 2 3. cbn [y_sim with_sim]. rewrite set_rsps_collapse.
+      unfold rsps, with_sim. cbn. reflexivity.
+    + unfold rsps at 1 2 3. cbn [y_sim with_sim]. rewrite set_rsps_collapse.
+      unfold rsps, with_sim. cbn. reflexivity.
+  - replace (do_cleanup (set_pend [] (y_sim (rsps a b y)))) with (do_cleanup (set_pend [] (y_sim y)))
+      by (unfold rsps; cbn [y_sim with_sim]; destruct (y_sim y); reflexivity). reflexivity.
+  - replace (do_cleanup (set_pend [] (y_sim (rsps a b y)))) with (do_cleanup (set_pend [] (y_sim y)))
+      by (unfold rsps; cbn [y_sim with_sim]; destruct (y_sim y); reflexivity). reflexivity.
+Qed.
+
+End YInit.
+
+Section YTop.
+Variable nint : Z -> Z -> Z -> Z.
+
+Definition yinit_tail (M : ymodel) (hf : nat) (r : repl) (ya : ysim) : ysim :=
+  let '(y3, failed) := yexec nint M hf InConstruct ya (hbody M 0) in
+  let y4 := if failed then yflag y3 else y3 in
+  let s5 := set_ps PInit (set_rs RInit (y_sim y4)) in
+  let s6 := if r_warm r <? clock s5 then raise_flag s5
+            else let e := mkEv (r_warm r) 10 (nid s5) HWarm 0 in
+                 set_nid (nid s5 + 1) (set_pend (ins e (pend s5)) s5) in
+  with_sim y4 s6.
+
+Lemma yinit_body_tail M hf y r m1 :
+  yinit_body nint M hf y r m1 =
+  yinit_tail M hf r
+    (mkY (set_created [] (set_clock (r_start r) (set_rep (Some r) (set_worker WAlive
+            (match worker (set_pend [] (y_sim y)) with WNone => set_pend [] (y_sim y)
+             | _ => do_cleanup (set_pend [] (y_sim y)) end)))))
+         (initial_subs M) (ym_streams M) 0 (y_dlv y) (y_drw y) m1).
+Proof. reflexivity. Qed.
+
+Variable B : ybase.
+Hypothesis B_le : (length (l_ob (yb_t B)) <= length (l_ob (yb_s B)))%nat.
+
+Lemma yinit_tail_ysim M hf r ya ta : YSim B ya ta -> YSim B (yinit_tail M hf r ya) (yinit_tail M hf r ta).
+Proof.
+  intros Y. unfold yinit_tail, yexec.
+  destruct (ymachine_ysim nint B M hf InConstruct ya ta (map IAct (hbody M 0)) Y) as [Y3 E3].
+  destruct (ymachine nint M hf InConstruct ya _) as [y3 fl], (ymachine nint M hf InConstruct ta _) as [t3 fl'].
+  cbn [fst snd] in *. subst fl'.
+  assert (Y4 : YSim B (if fl then yflag y3 else y3) (if fl then yflag t3 else t3))
+    by (destruct fl; auto using yflag_ysim).
+  destruct Y4 as [H4 R4]. apply ysim_with_sim; auto.
+  assert (H5 : IdSim (yb_s B) (yb_t B) (set_ps PInit (set_rs RInit (y_sim (if fl then yflag y3 else y3))))
+                                       (set_ps PInit (set_rs RInit (y_sim (if fl then yflag t3 else t3)))))
+    by (apply set_ps_idsim, set_rs_idsim; auto).
+  rewrite (idsim_clock _ _ _ _ H5).
+  destruct (r_warm r <? clock (set_ps PInit (set_rs RInit (y_sim (if fl then yflag y3 else y3))))).
+  - apply raise_flag_idsim; auto.
+  - apply warm_insert_idsim; auto.
+Qed.
+
+Lemma idsim_obs_len_gen s t :
+  IdSim (yb_s B) (yb_t B) s t -> length (obs s) = (length (obs t) + yb_L B)%nat.
+Proof.
+  intros [_ [n [A A']]]. unfold yb_L.
+  assert (Os : obs s = l_ob n ++ l_ob (yb_s B)) by (change (obs s) with (l_ob (logs_of s)); rewrite A; reflexivity).
+  assert (Ot : obs t = l_ob n ++ l_ob (yb_t B)) by (change (obs t) with (l_ob (logs_of t)); rewrite A'; reflexivity).
+  rewrite Os, Ot, !app_length. lia.
+Qed.
+
+Lemma ydo_init_ysim M hf r y t :
+  YSim B y t ->
+  YSim B (fst (fst (ydo_init nint M hf y r))) (fst (fst (ydo_init nint M hf t r)))
+  /\ snd (fst (ydo_init nint M hf t r)) = snd (fst (ydo_init nint M hf y r))
+  /\ snd (ydo_init nint M hf t r) = snd (ydo_init nint M hf y r).
+Proof.
+  intros [H R]. rewrite !ydo_init_eq, (idsim_running _ _ _ _ H).
+  destruct (running (y_sim y)); [cbn [fst snd]; split; [split; auto|auto]|]. cbv zeta.
+  pose proof (idsim_obs_len_gen _ _ H) as EL.
+  pose proof (cut_all_mrel _ (yb_N B) _ _ _ _ EL (yr_mdl _ _ _ R)) as M0.
+  destruct (build_stats_mrel _ (yb_N B) _ _ (ym_stats M) _ _ EL M0) as [M1 E1].
+  rewrite E1.
+  destruct (snd (build_stats (length (obs (y_sim t))) (ym_stats M) _)); cbn [fst snd]; split; auto.
+  - rewrite !yinit_body_tail. apply yinit_tail_ysim.
+    split; cbn [y_sim].
+    + apply forget_created_idsim, set_clock_idsim, set_rep_idsim, set_worker_idsim.
+      pose proof (clear_idsim _ _ _ _ H) as H0.
+      rewrite (idsim_worker _ _ _ _ H0). destruct (worker (set_pend [] (y_sim y))); auto using do_cleanup_idsim.
+    + destruct R. constructor; cbn; auto.
+  - split; [exact H|]. destruct R. constructor; cbn; auto.
+Qed.
+
+Theorem ydo_cmd_ysim M fuel hf c y t :
+  YSim B y t ->
+  YSim B (fst (fst (ydo_cmd nint fuel hf M y c))) (fst (fst (ydo_cmd nint fuel hf M t c)))
+  /\ snd (fst (ydo_cmd nint fuel hf M t c)) = snd (fst (ydo_cmd nint fuel hf M y c))
+  /\ snd (ydo_cmd nint fuel hf M t c) = snd (ydo_cmd nint fuel hf M y c).
+Proof.
+  intros Y. pose proof Y as [H R]. destruct c; cbn [ydo_cmd].
+  - apply ydo_init_ysim; auto.
+  - cbn [fst snd]. auto.
+  - rewrite (idsim_rep _ _ _ _ H). destruct (rep (y_sim y)); cbn [fst snd]; auto.
+    destruct (ydo_start_ysim nint B M fuel hf y t (TNum (r_end r)) true Y). auto.
+  - cbn [fst snd]. destruct (ydo_step_ysim nint B M hf y t Y). auto.
+  - rewrite (idsim_running _ _ _ _ H). destruct (running (y_sim y)); cbn [fst snd]; auto.
+    split; auto. apply ysim_with_sim; auto. apply set_rs_idsim, emit_idsim; auto.
+  - cbn [fst snd]. destruct (ydo_start_ysim nint B M fuel hf y t t0 false Y). auto.
+  - cbn [fst snd]. destruct (ydo_start_ysim nint B M fuel hf y t t0 true Y). auto.
+  - cbn [fst snd]. destruct (ydo_end_repl_ysim nint B M fuel hf y t Y). auto.
+  - cbn [fst snd]. split; auto. apply ysim_with_sim; auto. apply do_cleanup_idsim; auto.
+Qed.
+
+Theorem y_hist_ysim fuel hf h : forall y t,
+  YSim B y t ->
+  YSim B (fst (fst (y_hist nint fuel hf y h))) (fst (fst (y_hist nint fuel hf t h)))
+  /\ snd (fst (y_hist nint fuel hf t h)) = snd (fst (y_hist nint fuel hf y h))
+  /\ snd (y_hist nint fuel hf t h) = snd (y_hist nint fuel hf y h).
+Proof.
+  induction h as [|[M c] r IH]; intros y t Y; cbn [y_hist]; [cbn; auto|].
+  destruct (ydo_cmd_ysim M fuel hf c y t Y) as (Y1 & E1 & E1').
+  destruct (ydo_cmd nint fuel hf M y c) as [[y1 res] bad], (ydo_cmd nint fuel hf M t c) as [[t1 res'] bad'].
+  cbn [fst snd] in *. subst res' bad'.
+  destruct (IH y1 t1 Y1) as (Y2 & E2 & E2').
+  destruct (y_hist nint fuel hf y1 r) as [[y2 sn] b2], (y_hist nint fuel hf t1 r) as [[t2 sn'] b2'].
+  cbn [fst snd] in *. subst sn' b2'. split; auto. split; auto.
+  destruct Y1 as [H1 _]. rewrite (snap_idsim _ _ _ _ res H1). reflexivity.
+Qed.
+
+End YTop.
